@@ -438,8 +438,17 @@ int fiber_manager_wake_from_mpsc_queue(fiber_manager_t* manager,
       wake_count += 1;
     } else if (count > 0) {
       manager->wake_mpsc_spin_count += 1;
-      fiber_manager_yield(manager);
-      manager = fiber_manager_get();
+      if (manager->current_fiber != manager->maintenance_fiber) {
+        fiber_manager_yield(manager);
+        manager = fiber_manager_get();
+      } else {
+        // the deferred unlock of fiber_manager_do_maintenance() can run in
+        // this thread's maintenance fiber. it must never yield: it would be
+        // queued like an ordinary fiber and could be stolen by another thread.
+        // the waiter is between announcing itself and enqueueing, which it
+        // does without switching, so it is running on another thread
+        cpu_relax();
+      }
     }
   } while (wake_count < count);
   return wake_count;
